@@ -333,7 +333,7 @@ func (r *runnableStep) Lifecycle(_ map[string]any) (step.Lifecycle[step.Lifecycl
 										nil,
 										nil,
 									),
-									"errors": schema.NewPropertySchema(
+									"messages": schema.NewPropertySchema(
 										schema.NewMapSchema(
 											schema.NewIntSchema(nil, nil, nil),
 											schema.NewStringSchema(nil, nil, nil),
